@@ -15,6 +15,31 @@ def gc (s : String) : Component := ⟨8, s.toUTF8.toList.map (·.toNat)⟩
     component whose value is exactly the word). -/
 def compIs (c : Component) (s : String) : Bool := c == gc s
 
+/-- the module names `Thread.modules` is keyed by (`interest.NameV[2].String()`) -/
+inductive Mod | cs | faces | fib | rib | status | sc | other
+deriving DecidableEq, Repr
+
+def modOf (c : Component) : Mod :=
+  if compIs c "cs" then .cs else if compIs c "faces" then .faces else if compIs c "fib" then .fib
+  else if compIs c "rib" then .rib else if compIs c "status" then .status
+  else if compIs c "strategy-choice" then .sc else .other
+
+/-- the verb words the modules switch on (`interest.NameV[3].String()`) -/
+inductive Word
+  | register | unregister | announce | list | addNexthop | removeNexthop | set | unset
+  | config | erase | info | query | general | create | update | destroy | other
+deriving DecidableEq, Repr
+
+def wordOf (c : Component) : Word :=
+  if compIs c "register" then .register else if compIs c "unregister" then .unregister
+  else if compIs c "announce" then .announce else if compIs c "list" then .list
+  else if compIs c "add-nexthop" then .addNexthop else if compIs c "remove-nexthop" then .removeNexthop
+  else if compIs c "set" then .set else if compIs c "unset" then .unset
+  else if compIs c "config" then .config else if compIs c "erase" then .erase
+  else if compIs c "info" then .info else if compIs c "query" then .query
+  else if compIs c "general" then .general else if compIs c "create" then .create
+  else if compIs c "update" then .update else if compIs c "destroy" then .destroy else .other
+
 def lhPrefix : Name := [gc "localhost", gc "nfd"]
 def lpPrefix : Name := [gc "localhop", gc "nfd"]
 def strategyPrefix : Name := lhPrefix ++ [gc "strategy"]
@@ -25,6 +50,11 @@ def multicastV1 : Name := strategyPrefix ++ [gc "multicast", ⟨versionType, [1]
 /-- `fw.StrategyVersions` -/
 def strategyVersions (c : Component) : Option (List Nat) :=
   if compIs c "best-route" then some [1] else if compIs c "multicast" then some [1] else none
+
+/-- the newest of the registered versions (`set` defaults to it) -/
+def newestVersion : List Nat → Nat
+  | [] => 0
+  | v :: vs => vs.foldl (fun m x => if x > m then x else m) v
 
 /-- names the forwarding threads have a strategy instance for (`InstantiateStrategies`) -/
 def instantiated (s : Name) : Bool := s == bestRouteV1 || s == multicastV1
@@ -42,7 +72,7 @@ structure Face where
   uri : String
   rscheme : String
   lscheme : String
-  scope : Nat          -- 1 = local, 0 = non-local
+  isLocal : Bool       -- transport scope: Local / NonLocal (no transport is created with Unknown)
   pers : Nat
   mtu : Nat
   ndnlp : Bool         -- *NDNLPLinkService
@@ -181,4 +211,24 @@ def scSet : Sc → Name → Name → Sc
 
 def scUnset (sc : Sc) (n : Name) : Sc := sc.filter fun e => e.1 != n
 
+/-- persistency values a face of this kind may be switched to (face.go update) -/
+def persOk (f : Face) (p : Nat) : Bool :=
+  if f.rscheme == "ether" && p != 2 then false
+  else if (f.rscheme == "udp4" || f.rscheme == "udp6") && p != 0 && p != 2 then false
+  else if f.lscheme == "unix" && p != 0 then false
+  else true
+
+def persArgOk (f : Face) (pers : Option Nat) : Bool :=
+  match pers with | some pv => persOk f pv | none => true
+
+/-- Flags and Mask must come together -/
+def flagsMaskOk (flags mask : Option Nat) : Bool := flags.isSome == mask.isSome
+
+/-- flag bits selected by the mask are copied: bit 0 local fields, bit 2 congestion marking -/
+def applyFlags (f : Face) (flags mask : Nat) : Face :=
+  let f := if mask % 2 == 1 then { f with localFields := flags % 2 == 1 } else f
+  if mask / 4 % 2 == 1 then { f with congMark := flags / 4 % 2 == 1 } else f
+
+/-- `NDNLPLinkServiceOptions.Flags()` -/
+def faceFlags (f : Face) : Nat := (if f.localFields then 1 else 0) + (if f.congMark then 4 else 0)
 end Ndn.C17
